@@ -25,6 +25,11 @@ a refutation (`…_full_refuted`, replayed on the real code by harness/props/c08
     stale tracks its reference; a later successful, value-changing assignment to the source
     parameter makes it fresh again ("invalid, then valid again" is covered).  Histories without a
     raising source update have an empty stale set, i.e. the full statement.
+The driver executes the operation layer of Refs/Hooks.lean, which adds user watchers that assign a plain
+value to a sibling parameter (also inside the flush of a sync, under `edit_constant` and `syncing`) and
+parameters made constant on one instance only.  `driver_semantics_is_the_model`: without such watchers and
+flags that layer is the model, so the theorems below are about what the driver runs; with them the tie to
+the code is correspondence and oracle only (finding `watcher-assignment-during-own-sync-keeps-link`).
 Everything structural — no watcher left behind, every dependency watched, refs a dict, constants
 referenced, only allow_refs parameters linked — is proved for ALL reachable worlds, raising source
 updates included.
@@ -32,6 +37,7 @@ updates included.
 `_update_ref(name, Undefined)`): `old_sources_keep_no_watcher`.
 -/
 import ParamVerif.Refs.Lemmas
+import ParamVerif.Refs.HooksLemmas
 
 namespace ParamVerif.Refs
 
@@ -384,6 +390,24 @@ theorem ctor_and_late_links_equivalent (c : Cfg) (dflt : List Val) (kws : List (
     ∃ w0, construct c dflt [] w = (.ok, w0) ∧
       runOps c (kws.map fun kv => .set w.tgts.length kv.1 kv.2) w0 = w1 :=
   ctor_late_equiv hfresh hlen hkeys hfree hc
+
+/-- **C08, what the driver runs.**  With no user watcher that assigns and no parameter locked on an
+instance, an operation of the hook layer (Refs/Hooks.lean) does exactly what `step` does. -/
+theorem driver_semantics_is_the_model (c : Cfg) (h : HCfg) (hh : noHooks h) (op : Op) (w : World) :
+    stepH c h (.base op) { w := w, locked := [] } =
+      ((step c op w).1, { w := (step c op w).2.1, locked := [] }, (step c op w).2.2) :=
+  stepH_eq_step hh op w
+
+/-- a user watcher's assignment that is rejected (invalid for the sibling, readonly, constant outside a
+sync) leaves the world as it is and announces nothing — C02 inside a dispatch -/
+theorem rejected_watcher_assignment_no_effect (c : Cfg) (L : List (Nat × Nat)) (t b : Nat) (k : Int) (inSync : List Nat)
+    (ec : Bool) (w : World) (tg : Target) (d : PDecl) (old : Val) (e : Err) (w1 : World) (evs : List (Nat × Val))
+    (htg : w.tgts[t]? = some tg) (hd : c.decl t b = some d) (hr : tg.read b = some old)
+    (hrej : setCore c t b (effDecl L t b d) old (some (.int k))
+      (if d.allowRefs && (dictGet tg.refs b).isSome && !inSync.contains b then Relink.drop else Relink.keep) ec w = (.raised e, w1, evs)) :
+    hookAssign c L t b k inSync ec w = (w, []) := by
+  unfold hookAssign
+  simp only [htg, hd, hr, hrej]
 
 /-! ### witnesses: the hypotheses are satisfiable, and the two `_full` statements are false -/
 
